@@ -30,6 +30,10 @@ func genC04(t *rapid.T) caseProg {
 	cfg.PEmbedAsg = 0
 	cfg.WVar, cfg.WAsg, cfg.WPrint, cfg.WDef, cfg.WBind = 5, 10, 5, 50, 30
 	cfg.BNames = []string{"", `"a"`, `"b"`}
+	if gen.Chance(t, 30, "similartypes") {
+		// block types that differ only by case and underscores are different types
+		cfg.Types = []string{"s", "S", "s_", "t", "T_"}
+	}
 	return genCaseProg(t, cfg, gen.LayoutOpts{Plain: 95})
 }
 
